@@ -337,6 +337,37 @@ theorem snap_facts {w : World} {σ : List SSlot} {S : List Vrp} (hg : Good w σ 
   · refine ⟨l4 ++ l6, ?_, by simp [roasOf]⟩
     rw [List.map_append, e4, e6]; rfl
 
+/-- the relation does not look at the walker's `upSeen` note -/
+theorem SlotRel.upSeen {S : List Vrp} {x : Slot} {y : SSlot} (h : SlotRel S x y) (n : Nat) :
+    SlotRel S x { y with upSeen := n } :=
+  ⟨h.sid, h.cache, h.wf, h.rest, h.le, h.started, h.fresh,
+   fun cl hc =>
+     have L := h.live cl hc
+     ⟨L.src, L.ok, L.closed, L.gone, L.why, fun hd hcl =>
+       have C := L.clean hd hcl; ⟨C.len, C.buf, C.link, C.rx⟩⟩⟩
+
+theorem all2_map_right {α β : Type} {r : α → β → Prop} {as : List α} {bs : List β} (g : β → β)
+    (h : All2 r as bs) (hg : ∀ a b, r a b → r a (g b)) : All2 r as (bs.map g) := by
+  induction h with
+  | nil => exact All2.nil
+  | cons hab _ ih => exact All2.cons (hg _ _ hab) ih
+
+theorem good_markUp {w : World} {σ : List SSlot} {S : List Vrp} (hg : Good w σ S) (s : Snap) :
+    Good w (markUp s σ) S := by
+  refine ⟨hg.inv, hg.rel, ?_, ?_, hg.owned⟩
+  · apply all2_map_right _ hg.slots
+    intro x y h
+    split
+    · exact h.upSeen _
+    · exact h
+  · have : (markUp s σ).map (·.sid) = σ.map (·.sid) := by
+      simp only [markUp, List.map_map]
+      apply List.map_congr_left
+      intro y _
+      simp only [Function.comp]
+      split <;> rfl
+    rw [this]; exact hg.nodup
+
 theorem firstSome_none {l : List (Option String)} (h : ∀ o ∈ l, o = none) : firstSome l = none := by
   induction l with
   | nil => rfl
@@ -623,6 +654,69 @@ def startsOnce : List SSlot → List Step → Bool
   | σ, .close sid e :: rest => startsOnce (sStep σ (.close sid e)) rest
   | σ, .snap :: rest => startsOnce σ rest
 
+/-- `startsOnce` looks only at which sessions have been started -/
+def keyOf (σ : List SSlot) : List (Nat × Bool) := σ.map (fun y => (y.sid, y.started))
+
+def keyStep : List (Nat × Bool) → Step → List (Nat × Bool)
+  | k, .start sid => k.map (fun e => (e.1, if e.1 = sid then true else e.2))
+  | k, _ => k
+
+theorem keyOf_sStep (σ : List SSlot) (st : Step) : keyOf (sStep σ st) = keyStep (keyOf σ) st := by
+  cases st with
+  | start sid =>
+    simp only [sStep, keyOf, keyStep, List.map_map]
+    apply List.map_congr_left
+    intro y _
+    simp only [Function.comp]
+    split <;> simp_all
+  | send sid n =>
+    simp only [sStep, keyOf, keyStep, List.map_map]
+    apply List.map_congr_left
+    intro y _
+    simp only [Function.comp]
+    split <;> rfl
+  | close sid e =>
+    simp only [sStep, keyOf, keyStep, List.map_map]
+    apply List.map_congr_left
+    intro y _
+    simp only [Function.comp]
+    split <;> rfl
+  | soft sid => rfl
+  | wfail sid => rfl
+  | snap => rfl
+
+theorem keyOf_markUp (s : Snap) (σ : List SSlot) : keyOf (markUp s σ) = keyOf σ := by
+  simp only [markUp, keyOf, List.map_map]
+  apply List.map_congr_left
+  intro y _
+  simp only [Function.comp]
+  split <;> rfl
+
+theorem startsOnce_congr (steps : List Step) : ∀ (σ σ' : List SSlot), keyOf σ = keyOf σ' →
+    startsOnce σ steps = startsOnce σ' steps := by
+  induction steps with
+  | nil => intro _ _ _; rfl
+  | cons st rest ih =>
+    intro σ σ' hk
+    have hstep : keyOf (sStep σ st) = keyOf (sStep σ' st) := by rw [keyOf_sStep, keyOf_sStep, hk]
+    cases st with
+    | start sid =>
+      simp only [startsOnce]
+      rw [ih _ _ hstep]
+      have hall : ∀ τ : List SSlot, τ.all (fun y => decide (y.sid ≠ sid) || !y.started)
+          = (keyOf τ).all (fun e => decide (e.1 ≠ sid) || !e.2) := by
+        intro τ; simp [keyOf, List.all_map, Function.comp_def]
+      rw [hall σ, hall σ', hk]
+    | send sid n => simp only [startsOnce]; exact ih _ _ hstep
+    | soft sid => simp only [startsOnce]; exact ih _ _ hstep
+    | wfail sid => simp only [startsOnce]; exact ih _ _ hstep
+    | close sid e => simp only [startsOnce]; exact ih _ _ hstep
+    | snap => simp only [startsOnce]; exact ih _ _ hk
+
+theorem startsOnce_markUp (s : Snap) (steps : List Step) (σ : List SSlot)
+    (h : startsOnce σ steps = true) : startsOnce (markUp s σ) steps = true := by
+  rw [startsOnce_congr steps (markUp s σ) σ (keyOf_markUp s σ)]; exact h
+
 structure CaseWF (c : Case) : Prop where
   nodup : (c.streams.map (·.sid)).Nodup
   wf : ∀ d ∈ c.streams, ∀ p ∈ d.pdus, PduWF p
@@ -655,7 +749,10 @@ theorem run_sim (steps : List Step) : ∀ (w : World) (σ : List SSlot) (S : Lis
     cases st with
     | snap =>
       obtain ⟨s, hs, hc⟩ := checkSnap_ok hg
-      obtain ⟨obs, hrun, hchk⟩ := ih w σ S (i + 1) hg (by simpa [startsOnce] using hso)
+      have hso' : startsOnce (markUp s σ) rest = true := by
+        simp only [startsOnce] at hso
+        exact startsOnce_markUp s rest σ hso
+      obtain ⟨obs, hrun, hchk⟩ := ih w (markUp s σ) S (i + 1) (good_markUp hg s) hso'
       exact ⟨s :: obs, by simp [runSteps, hs, hrun], by simp [checkFrom, hc, hchk]⟩
     | start sid =>
       simp only [startsOnce, Bool.and_eq_true, List.all_eq_true, Bool.or_eq_true, decide_eq_true_eq,
